@@ -37,8 +37,16 @@ pub trait DataInput {
 
     /// Read a vector of bytes with the specified length
     fn read_vec(&mut self, len: usize) -> Result<Vec<u8>> {
-        let mut buf = vec![0u8; len];
-        self.read_bytes(&mut buf)?;
+        // `len` usually comes from a length prefix in the input: never allocate more than the
+        // input has actually delivered (a short input fails in read_bytes after at most one chunk).
+        const CHUNK: usize = 64 * 1024;
+        let mut buf = Vec::new();
+        while buf.len() < len {
+            let n = (len - buf.len()).min(CHUNK);
+            let old = buf.len();
+            buf.resize(old + n, 0);
+            self.read_bytes(&mut buf[old..])?;
+        }
         Ok(buf)
     }
 
